@@ -179,7 +179,7 @@ def r5(ctx):
         per[op] = stamped
     ok = per.get("PONG") is True and per.get("PING") is False and per.get("TEXT") is False
     ctx.ob(f"{RF}.read:last_pong_tm-on-pong-only", ok, f"last_pong_tm updated per opcode: {per}", ctx.index.loc(ctx.index.func(f'{RF}.read').node))
-    st = sock_stubs(extra={"threading.Event": lambda I, run, a, k, n: new_obj(run, None, "stopev"), "threading.Thread": lambda I, run, a, k, n: (run.effect("Thread", a, k, node=n), new_obj(run, None, "pingthread"))[1],
+    st = sock_stubs(extra={"threading.Event": lambda I, run, a, k, n: new_obj(run, None, "freshev"), "threading.Thread": lambda I, run, a, k, n: (run.effect("Thread", a, k, node=n), new_obj(run, None, "pingthread"))[1],
                            "pingthread.start": lambda I, run, a, k, n: (run.effect("thread.start", ()), NONE)[1], "stopev.set": lambda *a: NONE,
                            "pingthread.is_alive": lambda *a: FALSE})
     I2 = Interp(ctx.index, Config(stubs=st))
@@ -192,6 +192,12 @@ def r5(ctx):
             f = o.run.cell(o.value).fields
             ok = f.get("last_ping_tm") == C(0.0) and f.get("last_pong_tm") == C(0.0)
             if m == "_start_ping_thread":
+                ev = f.get("stop_ping")
+                fresh = isinstance(ev, Ref) and o.run.cell(ev).label == "freshev"
+                ctx.ob(f"{APP}._start_ping_thread:fresh-unset-stop-event", fresh,
+                       "every ping thread gets a new, unset stop event" if fresh else
+                       "the stop event of the previous connection (left set by _stop_ping_thread) is reused: the new ping thread exits at once and no ping is ever sent on a re-established connection",
+                       ctx.index.loc(ctx.index.func(f"{APP}._start_ping_thread").node))
                 th = [e for e in o.effects if e.name == "Thread"]
                 ok = ok and len(th) == 1 and getattr(th[0].kwargs.get("target"), "fn", None) is not None and th[0].kwargs["target"].fn.qualname == f"{APP}._send_ping" \
                     and "thread.start" in [e.name for e in o.effects]
@@ -202,3 +208,9 @@ def r5(ctx):
 def r3(ctx):
     from .c13 import r4 as dispatcher_skeleton
     dispatcher_skeleton(ctx)
+
+
+@rule("R-C16-6", min_instances=3, title="every pong reaches the application whatever the surrounding traffic (control frames reported in every reassembly state)")
+def r6(ctx):
+    from .c07 import r2 as control_frames_reported
+    control_frames_reported(ctx)
